@@ -41,6 +41,15 @@ def run_c01(ctx):
             run_olh(ctx, 'shell', twin_args(ctx, ['-histories', '25', '-blocks', '12'], ['-histories', '300', '-blocks', '24']))]
 
 
+def run_c02(ctx):
+    return [run_olh(ctx, 'ledger', twin_args(ctx, ['-histories', '120', '-blocks', '14', '-maxtxs', '8'], ['-histories', '1500', '-blocks', '24', '-maxtxs', '10'])),
+            run_olh(ctx, 'ledger-direct', twin_args(ctx, ['-histories', '80', '-blocks', '14', '-maxtxs', '8'], ['-histories', '1000', '-blocks', '24', '-maxtxs', '10']))]
+
+
+def run_c18(ctx):
+    return [run_olh(ctx, 'nocrash', twin_args(ctx, ['-seeds', '12', '-fuzz', '150', '-parallel', '12'], ['-seeds', '120', '-fuzz', '400', '-parallel', '14']))]
+
+
 def run_c05(ctx):
     return [run_olh(ctx, 'replay', twin_args(ctx, ['-histories', '60', '-blocks', '16', '-maxtxs', '8'], ['-histories', '800', '-blocks', '30', '-maxtxs', '10'])),
             run_olh(ctx, 'shell', twin_args(ctx, ['-histories', '25', '-blocks', '12'], ['-histories', '300', '-blocks', '24']))]
@@ -73,6 +82,25 @@ PROPS = {
         required_theorems=['execBlocks_env_independent', 'runCalls_env_independent', 'block_log_is_cache_in_first_write_order', 'sortKeys_perm_invariant', 'no_unsorted_writing_range', 'map_ranges_as_classified', 'env_uses_as_classified'],
         run=run_c01, replay=replay_olh('twin'), level='proof', assumptions=SHELL_ASSUME,
         model_limits='environment independence of the 39 handlers themselves rests on the extracted envUses/mapRanges tables plus twin replicas (identity, role, witness flag differ; Go map order differs per run), not on per-handler proofs; IAVL determinism is trusted (validated under C09)'),
+    'C02': dict(
+        lean_modules=['OLP.Props.C02'], namespaces=['OLP.Props.C02'],
+        required_theorems=['transfer_conserves', 'transfer_nonneg', 'negative_credit_breaks_nonneg', 'send_conserves', 'send_nonneg', 'mismatched_coins_change_total', 'toCoinWithBase_wraps', 'wrap64_exact_iff', 'history_no_creation'],
+        run=run_c02, replay=replay_olh('ledger'), level='proof',
+        assumptions=['the value ledger is decoded from the committed tree by the harness (record classes and units in harness/apph/ledger.go DecodeLedger); active network delegations are counted through the delegation pool balance that mirrors them (C12)',
+                     'allowed per-block accrual = the DelegationPool attribute of the block_rewards event (C13 bounds it by the schedule); wrapped-currency locks do not occur in the genesis families used here (C15)'],
+        model_limits='the Lean file carries the generic accounting theorems (every conserving handler is a debit/credit pair of the same coin) plus SEND / fee step at full strength; the per-subsystem instances (stake, delegation, proposal funds, rewards, trackers, domains) are proved with their models in C11-C15, C20; every handler is covered dynamically by the ledger monitor on hostile amounts through CheckTx-gated and direct delivery'),
+    'C03': dict(
+        lean_modules=['OLP.Props.C03', 'OLP.Props.C03Facts'], namespaces=['OLP.Props.C03'],
+        required_theorems=['transfer_debits_only_src', 'negative_coin_debits_receiver', 'send_debits_only_from', 'feeStep_debits_only_signer', 'block_debits_only_authorised', 'signers_as_classified'],
+        run=run_c02, replay=replay_olh('ledger'), level='proof',
+        assumptions=['holdings per owner are decoded by the harness (balances, effective / withdrawable / maturing stake, active and pending delegation, delegation reward claims); authorised = signed a transaction of the block, stake account of a signing validator, or validator declared guilty in the block'],
+        model_limits='authorisation of the 31 handlers rests on the extracted Signers() table (decide) plus the stranger stream of the ledger engine (every address-typed payload field replaced by a third party while the attacker signs), not on per-handler proofs'),
+    'C18': dict(
+        lean_modules=['OLP.Props.C18', 'OLP.Props.C18Facts'], namespaces=['OLP.Props.C18'],
+        required_theorems=['guarded_undelegate_never_crashes', 'unguarded_undelegate_crashes', 'minus_same_currency_never_crashes', 'plus_same_currency_never_crashes', 'fatal_sites_as_classified'],
+        run=run_c18, replay=replay_olh('nocrash'), level='proof',
+        assumptions=['proof over a PARTIAL model: the Fatal sites of the coin arithmetic and the guard idiom protecting them; all other Fatal/panic/os.Exit sites are a classified extracted table; Go runtime panics inside libraries (JSON/RLP/ABI decoding, big.Int) are searched by child-process execution only, not proved absent'],
+        model_limits='inputs run in child processes (exit status, handlePanic closure, hang, probe SEND afterwards); OLVM / ETH payload kinds are not in the generator of this engine yet'),
     'C05': dict(
         lean_modules=['OLP.Props.C05', 'OLP.Props.C05Facts'], namespaces=['OLP.Props.C05'],
         required_theorems=['replay_deliver_noop', 'replay_check_rejected', 'executed_tx_indexed', 'index_is_stable', 'replay_noop_in_later_block', 'replay_any_encoding_noop_partial', 'reencoded_replay_executes_twice', 'canonical_guard_present'],
